@@ -241,6 +241,8 @@ class DataElement:
                 return struct.unpack_from('>I', data, offset)[0]
             case 8:
                 return struct.unpack_from('>Q', data, offset)[0]
+            case 16:
+                return int.from_bytes(data[offset : offset + 16], 'big')
             case invalid_length:
                 raise InvalidPacketError(f'invalid integer length {invalid_length}')
 
@@ -255,6 +257,8 @@ class DataElement:
                 return struct.unpack_from('>i', data, offset)[0]
             case 8:
                 return struct.unpack_from('>q', data, offset)[0]
+            case 16:
+                return int.from_bytes(data[offset : offset + 16], 'big', signed=True)
             case invalid_length:
                 raise InvalidPacketError(f'invalid integer length {invalid_length}')
 
@@ -289,6 +293,8 @@ class DataElement:
                         data = struct.pack('>I', self.value)
                     case 8:
                         data = struct.pack('>Q', self.value)
+                    case 16:
+                        data = self.value.to_bytes(16, 'big')
                     case invalid_length:
                         raise InvalidArgumentError(
                             f'invalid value_size of {invalid_length}'
@@ -303,6 +309,8 @@ class DataElement:
                         data = struct.pack('>i', self.value)
                     case 8:
                         data = struct.pack('>q', self.value)
+                    case 16:
+                        data = self.value.to_bytes(16, 'big', signed=True)
                     case invalid_length:
                         raise InvalidArgumentError(
                             f'invalid value_size of {invalid_length}'
